@@ -26,6 +26,7 @@ fn gen(family: Family, universe: u32, weights: Vec<(Kd, u32)>) -> Gen {
         max_hint: 3000,
         no_fill: false,
         fault_pct: 0,
+        bands_plan: false,
         churn: None,
         order: Vec::new(),
     }
@@ -164,6 +165,19 @@ fn set_spec(prop: &str, thorough: bool, rng: &mut Rng, universe: u32, n_ops: usi
             n_ops = rng.range(8, if thorough { 120 } else { 80 }) as usize;
             gen(Family::Set, *rng.pick(&[12u32, 40, 64, 100]), with(SET_CORE, &[(Kd::CloneFrom, 4), (Kd::ExtractIf, 3), (Kd::Retain, 3), (Kd::FillNoAlloc, 2), (Kd::SetOpAssign, 6), (Kd::SetOp, 3), (Kd::Extend, 3)], rng))
         }
+        "C05" => {
+            cfg.functional = 0;
+            cfg.callback_cap = 1_000_000;
+            match rng.below(3) {
+                0 => cfg.plans = (0..3).map(|_| Plan::random_byz(rng)).collect(),
+                1 => cfg.eq_mode = *rng.pick(&[EqMode::Random, EqMode::AlwaysTrue, EqMode::AlwaysFalse, EqMode::Asym]),
+                _ => {
+                    cfg.plans = (0..3).map(|_| Plan::random_byz(rng)).collect();
+                    cfg.eq_mode = *rng.pick(&[EqMode::Random, EqMode::AlwaysTrue, EqMode::AlwaysFalse, EqMode::Asym]);
+                }
+            }
+            gen(Family::Set, universe.min(200), with(SET_CORE, &[(Kd::GetOrInsertWith, 8), (Kd::GetOrInsert, 6), (Kd::Replace, 6), (Kd::SetOpAssign, 6), (Kd::SetOp, 4), (Kd::Drain, 3), (Kd::ExtractIf, 2), (Kd::Entry, 6), (Kd::FillNoAlloc, 2)], rng))
+        }
         "C08" => gen(Family::Set, universe, with(SET_CORE, &[(Kd::WithCapacity, 6), (Kd::New, 2), (Kd::DropSlot, 2), (Kd::Reserve, 8), (Kd::FillNoAlloc, 8), (Kd::Clear, 4), (Kd::Drain, 4), (Kd::ShrinkTo, 8), (Kd::ShrinkToFit, 4)], rng)),
         "C09" => gen(Family::Set, universe, with(SET_CORE, &[(Kd::Iter, 30), (Kd::IntoIter, 8), (Kd::Drain, 8)], rng)),
         "C10" => gen(Family::Set, universe, with(SET_CORE, &[(Kd::Retain, 14), (Kd::ExtractIf, 16), (Kd::Drain, 12)], rng)),
@@ -180,7 +194,7 @@ fn set_spec(prop: &str, thorough: bool, rng: &mut Rng, universe: u32, n_ops: usi
 fn set_share(prop: &str) -> u64 {
     match prop {
         "C07" => 100,
-        "C02" | "C03" | "C04" | "C08" | "C09" | "C10" | "C11" => 15,
+        "C02" | "C03" | "C04" | "C05" | "C08" | "C09" | "C10" | "C11" => 15,
         _ => 0,
     }
 }
@@ -196,6 +210,12 @@ fn table_share(prop: &str) -> u64 {
 
 /// Builds the run specification of one simulated run of `prop`.
 pub fn spec_for(prop: &str, thorough: bool, rng: &mut Rng) -> RunSpec {
+    let mut spec = spec_for_inner(prop, thorough, rng);
+    spec.gen.bands_plan = matches!(spec.cfg.plans.first(), Some(Plan::Bands { .. }));
+    spec
+}
+
+fn spec_for_inner(prop: &str, thorough: bool, rng: &mut Rng) -> RunSpec {
     let universe = universe_for(rng, thorough);
     if rng.below(100) < set_share(prop) {
         let n_ops = if thorough { rng.range(10, 400) } else { rng.range(10, 220) } as usize;
@@ -434,7 +454,9 @@ pub fn owns(prop: &str, v: &Violation) -> bool {
     match prop {
         "C01" => (functional || starts(c, "entry/") || starts(c, "retain/visits")) && MAP_CORE_OPS.contains(&k),
         "C02" => safety || starts(c, "panic/") || starts(c, "alloc/size-mismatch") || starts(c, "alloc/over-reservation"),
-        "C03" => starts(c, "ledger/") || starts(c, "alloc/leak") || starts(c, "alloc/double-free") || starts(c, "alloc/bad-free") || starts(c, "alloc/layout-mismatch") || starts(c, "alloc/size-mismatch") || starts(c, "cap/alloc-on-new"),
+        // an element that is still stored after it was dropped, or that vanished without being dropped, while a
+        // callback panic unwinds is the exactly-once statement under unwinding
+        "C03" => starts(c, "postpanic/dead-element") || starts(c, "postpanic/leaked-element") || starts(c, "ledger/") || starts(c, "alloc/leak") || starts(c, "alloc/double-free") || starts(c, "alloc/bad-free") || starts(c, "alloc/layout-mismatch") || starts(c, "alloc/size-mismatch") || starts(c, "cap/alloc-on-new"),
         "C04" => starts(c, "postpanic/") || safety || starts(c, "alloc/") || starts(c, "ledger/"),
         "C05" => safety || starts(c, "diverge/") || starts(c, "byz/") || starts(c, "ledger/") || starts(c, "alloc/") || starts(c, "getmany/alias") || starts(c, "panic/"),
         "C06" => functional || starts(c, "entry/") || starts(c, "iterhash/") || starts(c, "reinsert/") || starts(c, "retain/") || starts(c, "extract/") || starts(c, "drain/yield") || starts(c, "getmany/"),
@@ -442,8 +464,8 @@ pub fn owns(prop: &str, v: &Violation) -> bool {
         "C08" => starts(c, "cap/") || starts(c, "drain/allocation") || starts(c, "alloc/size-mismatch"),
         "C09" => starts(c, "iter/") || starts(c, "iterlen/") || (functional && ["Iter", "IntoIter", "SetIter", "TIter"].contains(&k)),
         "C10" => starts(c, "retain/") || starts(c, "extract/") || starts(c, "drain/") || (functional && ["Retain", "ExtractIf", "Drain"].contains(&k)),
-        "C11" => starts(c, "clone/") || starts(c, "eq/") || (functional && ["CloneTo", "CloneFrom", "EqSlots"].contains(&k)),
-        "C12" => starts(c, "tryreserve/") || starts(c, "alloc/invalid-layout") || (k == "TryReserve" && (functional || starts(c, "ledger/") || starts(c, "alloc/") || starts(c, "inv/"))),
+        "C11" => starts(c, "clone/") || starts(c, "eq/") || (["CloneTo", "CloneFrom"].contains(&k) && starts(c, "ledger/")) || (functional && ["CloneTo", "CloneFrom", "EqSlots"].contains(&k)),
+        "C12" => starts(c, "tryreserve/") || starts(c, "alloc/invalid-layout") || (k == "TryReserve" && starts(c, "alloc/over-reservation")) || (k == "TryReserve" && (functional || starts(c, "ledger/") || starts(c, "alloc/") || starts(c, "inv/"))),
         "C13" => starts(c, "churn/") || starts(c, "inv/I4") || starts(c, "hang/") || starts(c, "diverge/"),
         "C14" => starts(c, "entry/") || (k == "Entry" && (functional || starts(c, "inv/"))),
         "C19" => starts(c, "par/") || (k == "Par" && (functional || starts(c, "ledger/") || starts(c, "alloc/") || starts(c, "inv/"))),
